@@ -42,6 +42,9 @@ def run(chk: Check):
     chk.mc("MC_GooseInterface.tla", MC, tag="all-shapes-3", expect_actions=["Init"], timeout=900,
            what="all DAGs on 3 nodes x input states x positions x private residues x auto settings")
     traces = [I.symbolic_trace(rng, ncalls=rng.randint(4, 12)) for _ in range(200 if chk.quick else 3000)]
+    # the deprecated alias lsl.GooseModel is an interface of the same kind
+    traces += [I.symbolic_trace(rng, ncalls=rng.randint(4, 10), via="goosemodel") for _ in range(60 if chk.quick else 600)]
+    traces += [I.numeric_trace(rng, "transformed", via="goosemodel"), I.failed_construction_trace()]
     traces += [I.plain_trace(rng) for _ in range(2 if chk.quick else 20)]
     fams = (["linreg_flag", "transformed", "legacy_pit"] if chk.quick else FAMILY) + ["name_collision", "uniform_default", "int_init"]
     for f in fams:
